@@ -918,6 +918,11 @@ fn puts() -> BoxedStrategy<Vec<Put>> {
 impl Property for C01 {
     type Case = Case;
 
+    fn fuzz(&self) -> Option<FuzzSpec> {
+        // entropy-driven target: libFuzzer's bytes replace the generator's random numbers
+        Some(FuzzSpec { target: "gen", jobs: 8, runs: 200_000, max_len: 4096, seeds: 64 })
+    }
+
     fn id(&self) -> &'static str {
         "C01"
     }
